@@ -4,6 +4,10 @@
 cd "$(dirname "$0")/.." || exit 2
 for d in seeded/benign_*/; do
   id=$(basename "$d")
-  res=$(tools/try_mutation.sh "$d/patch.diff" 2>&1 | grep -E "exit=[12]" | tr '\n' ';')
+  out=$(tools/try_mutation.sh "$d/patch.diff" 2>&1)
+  if echo "$out" | grep -q "patch does not apply"; then echo "$id -> PATCH DOES NOT APPLY"; continue; fi
+  n=$(echo "$out" | grep -c "exit=")
+  res=$(echo "$out" | grep -E "exit=[12]" | tr '\n' ';')
+  if [ "$n" -ne 7 ]; then echo "$id -> INCOMPLETE ($n of 7 checks ran) $res"; continue; fi
   echo "$id -> ${res:-silent}"
 done
